@@ -4,7 +4,7 @@
     function of the renamed variables: its value at x is the original's value
     at x with the two levels' values exchanged. *)
 From Coq Require Import List Arith ZArith Bool.
-From Meddly Require Import Model.DD Model.Swap Proofs.DDFacts Proofs.Reduce Proofs.SwapP.
+From Meddly Require Import Model.DD Model.Swap Proofs.DDFacts Proofs.Reduce Proofs.SwapP Proofs.SwapR.
 Import ListNotations.
 
 Theorem C13_adjacent_swap_renames_the_variables :
@@ -18,6 +18,23 @@ Proof.
   now apply (reduced_wfl sz r L None).
 Qed.
 Print Assumptions C13_adjacent_swap_renames_the_variables.
+
+(** the result obeys the forest's reduction rule over the exchanged sizes, and it
+    is THE diagram of the renamed function there: the forest stays canonical *)
+Theorem C13_adjacent_swap_keeps_the_forest_canonical :
+  forall (sz : nat -> nat) (r : rule), is_ir r = false -> (forall k, 1 <= sz k) ->
+  forall p L t,
+  S (S p) <= L -> reducedb sz r L None t = true ->
+  reducedb (swap_sz sz p) r L None (swap_adj sz r p L t) = true /\
+  (forall u, reducedb (swap_sz sz p) r L None u = true ->
+     (forall x, valid (swap_sz sz p) x -> eval r L u x = eval r L t (swapx p x)) ->
+     u = swap_adj sz r p L t).
+Proof.
+  intros sz r Hr Hpos p L t HL Ht. split.
+  - now apply swap_adj_reduced.
+  - intros u Hu E. now apply (swap_adj_canonical sz r Hr Hpos p L t u).
+Qed.
+Print Assumptions C13_adjacent_swap_keeps_the_forest_canonical.
 
 (** non-vacuity: f(x2,x1) = (x2 = 0 and x1 = 1) over sizes (x1:2, x2:3); after the
     swap the top level has size 2 and the diagram tests the old x1 first *)
